@@ -640,6 +640,7 @@ type c15Run struct {
 	hold    bool                    // shmod: deliver the first item only, the rest once E is seen to wait for it
 	minV    uint16                  // chmod: the server's Config.MinVersion / MaxVersion (0 = unset)
 	maxV    uint16
+	cMaxV   uint16 // shmodv: the client's Config.MaxVersion (0 = unset)
 }
 
 type c15Result struct {
@@ -764,6 +765,9 @@ func c15Exec(rn c15Run) (res c15Result) {
 	}
 	if rn.minV != 0 || rn.maxV != 0 {
 		scfg.MinVersion, scfg.MaxVersion = rn.minV, rn.maxV
+	}
+	if rn.cMaxV != 0 {
+		ccfg.MaxVersion = rn.cMaxV
 	}
 	if rn.fl["resume"] {
 		first := runPair(ccfg, scfg, pairOpts{})
@@ -1740,4 +1744,5 @@ func genC15(r *rng, tier string, emit func(string)) {
 	c15cGen(r, tier, emit)
 	c06rGenHs(r, tier, emit) // handshake reassembly (Model.ConnRead)
 	c15eGen(r, tier, emit)   // a scripted server that holds the keys (omitted ChangeCipherSpec, extra messages)
+	c15sGen(r, tier, emit)   // hello checks made strict by repairs (harness/c15strict.go)
 }
